@@ -1162,6 +1162,62 @@ done:
 				h.why = append(h.why, "v2 WriteEntry: treatment of empty / over-long keys not recognised")
 			}
 		}
+		// Lock: which context does the locker wait on?  The caller's (or one derived from it): the wait ends with the
+		// caller's deadline.  One detached from it (context.WithoutCancel / Background / TODO): a request for a held
+		// key cannot be ended by its caller.
+		if fd.Name.Name == "Lock" {
+			ctxPar := ""
+			for _, fld := range fd.Type.Params.List {
+				if f.Str(fld.Type) == "context.Context" && len(fld.Names) == 1 {
+					ctxPar = fld.Names[0].Name
+				}
+			}
+			verdict := Unknown
+			var calls []*ast.CallExpr
+			ast.Inspect(fd.Body, func(n ast.Node) bool {
+				if c, ok := n.(*ast.CallExpr); ok && strings.HasSuffix(f.Str(c.Fun), ".Lock") && len(c.Args) == 3 {
+					calls = append(calls, c)
+				}
+				return true
+			})
+			if len(calls) == 1 && ctxPar != "" && ctxPar != "_" {
+				arg := f.Str(calls[0].Args[0])
+				def := ""
+				nAssign := 0
+				ast.Inspect(fd.Body, func(n ast.Node) bool {
+					if as, ok := n.(*ast.AssignStmt); ok {
+						for i, l := range as.Lhs {
+							if f.Str(l) == arg {
+								nAssign++
+								if len(as.Rhs) == len(as.Lhs) {
+									def = f.Str(as.Rhs[i])
+								} else if len(as.Rhs) == 1 {
+									def = f.Str(as.Rhs[0])
+								}
+							}
+						}
+					}
+					return true
+				})
+				switch {
+				case arg == ctxPar && nAssign == 0:
+					verdict = Yes
+				case nAssign == 1 && def == ctxPar:
+					verdict = Yes
+				case nAssign == 1 && regexp.MustCompile(`^context\.With(Timeout|Deadline|Cancel|Value)\(`+regexp.QuoteMeta(ctxPar)+`\b`).MatchString(def):
+					verdict = Yes
+				case nAssign == 1 && (def == "context.WithoutCancel("+ctxPar+")" || def == "context.Background()" || def == "context.TODO()"):
+					verdict = No
+				}
+			}
+			switch verdict {
+			case No:
+				needs = append(needs, "need lockHeld ctxignored")
+			case Unknown:
+				needs = append(needs, "unknown")
+				h.why = append(h.why, "Lock: the context handed to the locker not recognised")
+			}
+		}
 		h.main = append(append(append([]string{}, h.main[:n-1]...), needs...), "body")
 	}
 	for _, s := range append(append([]string{}, h.val...), h.main...) {
